@@ -8,6 +8,10 @@ from . import values as V
 from .values import BT, EngineError
 
 
+import os as _os
+_DEBUG_OBL = bool(_os.environ.get('PYVC_DEBUG_OBL'))
+
+
 class PathEnd(Exception):
     """The current path stops here (vacuous assumption, loop body verified, infeasible)."""
 
@@ -56,6 +60,7 @@ class Ctx:
         self.muts = V.reset_alloc()
         self.assume_log = None  # list collecting assumptions made inside a speculative branch
         self.ndecisions = 0
+        self.split = None   # (Int term, codes): complete case split used when a goal is not decided at once
 
     # -- fresh symbols ---------------------------------------------------------------------------
     def fresh_name(self, hint):
@@ -248,8 +253,43 @@ class Ctx:
             s2.add(self.pc)
             s2.add(z3.Not(goal))
             smt2 = s2.to_smt2()
-        r, m = self._check(z3.Not(goal), self.goal_timeout_ms)
+        if self.split is not None:
+            r, m = self._check(z3.Not(goal), min(self.goal_timeout_ms, 1500))
+            if r == z3.unknown:
+                # complete case split on the values of some entry constants: each case is the
+                # formula with the constants *substituted* and simplified, in a fresh solver
+                consts, combos, domain = self.split
+                t1 = time.time()
+                F = z3.And(z3.And(self.pc) if self.pc else z3.BoolVal(True), z3.Not(goal))
+                r = z3.unsat
+                for combo in combos:
+                    Fs = z3.simplify(z3.substitute(F, *[(k, z3.IntVal(v))
+                                                        for k, v in zip(consts, combo)]))
+                    if z3.is_false(Fs):
+                        continue
+                    s2 = z3.Solver()
+                    s2.set('timeout', self.goal_timeout_ms)
+                    s2.add(Fs)
+                    rk = s2.check()
+                    if rk == z3.sat:
+                        s2.add([k == v for k, v in zip(consts, combo)])
+                        s2.check()
+                        r, m = rk, s2.model()
+                        break
+                    if rk == z3.unknown:
+                        r = rk
+                if r == z3.unsat:
+                    # the cases are exhaustive under the path condition
+                    rr, _ = self._check(z3.Not(domain), self.goal_timeout_ms)
+                    if rr != z3.unsat:
+                        r = z3.unknown
+                self.solver_secs += time.time() - t1
+        else:
+            r, m = self._check(z3.Not(goal), self.goal_timeout_ms)
         secs = time.time() - t0
+        if _DEBUG_OBL:
+            import sys
+            print(f'OBL {name} {r} {secs:.2f}s', file=sys.stderr, flush=True)
         if r == z3.unsat:
             self.obligations.append(Obligation(name, 'proved', secs=secs, smt2=smt2, where=where))
             return True
